@@ -234,6 +234,46 @@ def sany(module):
         return ok, p.stdout
 
 
+def run_apalache(module, *, init, inv, length, timeout=300):
+    """apalache-mc check --init=<init> --inv=<inv> --length=<length> on spec/<module>.tla in a scratch copy.
+    Returns (verdict, seconds, output): verdict True = NoError, False = invariant violated; anything else raises."""
+    with Scratch("verif-apa-") as d:
+        shutil.copy(os.path.join(SPEC, module + ".tla"), d)
+        t0 = time.time()
+        try:
+            p = subprocess.run(["apalache-mc", "check", "--init=" + init, "--inv=" + inv, "--length=%d" % length,
+                                "--out-dir=" + os.path.join(d, "out"), module + ".tla"], cwd=d, env=env_with(),
+                               stdout=subprocess.PIPE, stderr=subprocess.STDOUT, text=True, errors="replace", timeout=timeout)
+        except subprocess.TimeoutExpired:
+            raise MachineryError("apalache timed out on %s (%s)" % (module, inv))
+        out = p.stdout
+        wall = time.time() - t0
+    if "The outcome is: NoError" in out and p.returncode == 0:
+        return True, wall, out
+    if "The outcome is: Error" in out and "invariant" in out and "violated" in out:
+        return False, wall, out
+    raise MachineryError("apalache failed on %s: %s" % (module, out[-1500:]))
+
+
+def inductive(ck, module, inv="IndInv", mutant=None, timeout=300):
+    """Unbounded safety by induction with Apalache: Init => IndInv (length 0) and IndInv /\ Next => IndInv' (length 1,
+    started from the arbitrary IndInv state IndInit). `mutant` is a module whose IndInv is NOT inductive: it must be
+    refuted, otherwise the proof step is vacuous."""
+    a, w0, o0 = run_apalache(module, init="Init", inv=inv, length=0, timeout=timeout)
+    b, w1, o1 = run_apalache(module, init="IndInit", inv=inv, length=1, timeout=timeout)
+    ck.tlc_runs.append(dict(name="apalache:%s base+step" % module, ok=bool(a and b), wall_s=round(w0 + w1, 1),
+                            generated=0, distinct=0, depth=1, violated=None if (a and b) else inv))
+    if not (a and b):
+        ck.violation("specification %s: %s is not inductive (%s)" % (module, inv, "base" if not a else "step"),
+                     dict(kind="apalache", module=module, output=(o0 if not a else o1)[-3000:]))
+    if mutant:
+        c, w2, _ = run_apalache(mutant, init="IndInit", inv=inv, length=1, timeout=timeout)
+        if c:
+            raise MachineryError("mutant %s was proved inductive: the induction step is vacuous" % mutant)
+        ck.tlc_runs.append(dict(name="apalache:%s (mutant, must be refuted)" % mutant, ok=True, wall_s=round(w2, 1),
+                                generated=0, distinct=0, depth=1, violated=inv))
+
+
 # --------------------------------------------------------------------------- Go harness
 
 def build_harness(tags="verif"):
